@@ -62,7 +62,10 @@ Fixpoint scan (fuel : nat) (P : pattern) (s : dna) (pos : Z) : list (Z * Z) :=
   | S f =>
       match first_match P s with
       | None => []
-      | Some i => (pos + i, pos + i + psize P) :: scan f P (skipn (Z.to_nat (i + 1)) s) (pos + i + 1)
+      | Some i =>
+          if i >=? zlen s
+          then [(pos + i, pos + i + psize P)]     (* zero-length match at the very end: stop *)
+          else (pos + i, pos + i + psize P) :: scan f P (skipn (Z.to_nat (i + 1)) s) (pos + i + 1)
       end
   end.
 Definition find_in_string (P : pattern) (s : dna) : list (Z * Z) :=
